@@ -21,7 +21,7 @@ TRUSTED = [
     'the tie compares the model walk with torch\'s on every generated tree',
 ]
 THEOREMS = ['registered_exactly_eligible', 'registered_once', 'others_untouched', 'walk_names_are_paths', 'walk_reaches_everything']
-NOTES = 'Theorems hold for every graph, pattern outcome table and root; walk completeness is partial (see trusted base).'
+NOTES = 'Theorems hold for every graph, pattern outcome table and root; walk soundness and completeness are walk_names_are_paths / walk_reaches_everything.'
 
 
 def build_tree(rng, tier):
@@ -74,6 +74,9 @@ def build_tree(rng, tier):
                 p.requires_grad_(False)
         elif ps and fr < 0.3:
             rng.choice(ps).requires_grad_(False)
+        # an EMPTY child slot (optional sub-module declared with None, or a child disabled by assigning None): still a leaf
+        if rng.random() < 0.2:
+            m.add_module(rng.choice(['act', 'norm', 'opt']), None)
         pool.append(m)
         return m
 
